@@ -10,7 +10,6 @@ import itertools
 import os
 import subprocess
 import tempfile
-import threading
 import time
 from dataclasses import dataclass, field
 from fractions import Fraction
@@ -603,74 +602,48 @@ def solve_valid_inc(s, goal, timeout_ms):
     # The extra constraints only strengthen the hypotheses, so a model found there is a genuine counter-model of the
     # obligation (never used to prove anything); it makes refutations cheap when lengths / indices are symbolic.
     cli_small = _z3cli_start(_small_scope(smt2, asserts), max(3000, timeout_ms))
+    # the cone-of-influence slice goes to a THIRD process (the z3 5.1 command-line build): no threads, no shared
+    # solver context - whichever of the three processes answers first decides
     s2 = z3.Solver()
-    s2.set("timeout", timeout_ms)
     for a in cone:
         s2.add(a)
     s2.add(asserts[-1])
-    # the API check runs in a worker thread (z3 releases the GIL); whichever of the three answers first decides
-    box = {}
-
-    def _run():
-        try:
-            box["r"] = s2.check()
-        except z3.Z3Exception:
-            box["r"] = z3.unknown
-
-    th = threading.Thread(target=_run, daemon=True)
-    th.start()
-    early = None
-    live = {"full": cli, "small": cli_small}
-    while th.is_alive():
+    cli_cone = _z3cli_start(s2.to_smt2(), max(3000, timeout_ms), exe=_Z3_NEW)
+    del s2
+    budget = max(3000, timeout_ms)
+    live = {"cone": cli_cone, "full": cli, "small": cli_small}
+    t_end = time.time() + budget / 1000 + 2
+    verdict = None
+    while live and time.time() < t_end and verdict is None:
         for k_ in list(live):
             h_ = live[k_]
             if h_ is None:
                 live.pop(k_)
                 continue
-            if h_[0].poll() is not None:
-                live.pop(k_)
-                r_, m_ = _z3cli_finish(h_, max(3000, timeout_ms))
-                if r_ == "sat" or (r_ == "unsat" and k_ == "full"):
-                    early = (r_, m_, k_)
-                    break
-        if early:
-            break
-        th.join(0.02)
-    if early:
-        try:
-            s2.ctx.interrupt()
-        except Exception:
-            pass
-        th.join(10)
-        for h_ in live.values():
-            _z3cli_kill(h_)
-        r_, m_, k_ = early
-        be = "z3-4.8.12(cli)" if k_ == "full" else "z3-4.8.12(cli, small scope)"
-        if r_ == "unsat":
-            return "valid", be, None
-        return "invalid", be, (m_[:2000], {"__raw__": m_[:4000]})
-    cli, cli_small = live.get("full"), live.get("small")
-    r = box.get("r", z3.unknown)
-    if r == z3.unsat:
-        _z3cli_kill(cli)
-        _z3cli_kill(cli_small)
-        return "valid", "z3-cone", None
-    if r == z3.sat:
-        md = _model_to_dict(s2.model())
-        ms = "; ".join(f"{k}={v}" for k, v in sorted(md.items()) if len(v) < 80)[:2000]
-        s3 = z3.Solver()
-        s3.set("timeout", min(timeout_ms, 5000))
-        for a in rest:
-            s3.add(a)
-        if s3.check() != z3.unsat:
-            _z3cli_kill(cli)
-            _z3cli_kill(cli_small)
-            return "invalid", "z3-cone", (ms, md)
-    r1, m1 = _z3cli_first(cli, cli_small, max(3000, timeout_ms))
-    if r1 == "unsat":
-        return "valid", "z3-4.8.12(cli)", None
-    if r1 == "sat":
-        return "invalid", "z3-4.8.12(cli)", (m1[:2000], {"__raw__": m1[:4000]})
+            if h_[0].poll() is None:
+                continue
+            live.pop(k_)
+            r_, m_ = _z3cli_finish(h_, budget)
+            if r_ == "unsat" and k_ in ("cone", "full"):
+                verdict = ("valid", "z3-cone(cli)" if k_ == "cone" else "z3-4.8.12(cli)", None)
+            elif r_ == "sat" and k_ in ("full", "small"):
+                verdict = ("invalid", "z3-4.8.12(cli)" if k_ == "full" else "z3-4.8.12(cli, small scope)", (m_[:2000], {"__raw__": m_[:4000]}))
+            elif r_ == "sat" and k_ == "cone":
+                # a counter-model of the cone extends to the full hypothesis set when the dropped part is satisfiable
+                s3 = z3.Solver()
+                s3.set("timeout", min(timeout_ms, 5000))
+                for a in rest:
+                    s3.add(a)
+                if s3.check() != z3.unsat:
+                    verdict = ("invalid", "z3-cone(cli)", (m_[:2000], {"__raw__": m_[:4000]}))
+            if verdict is not None:
+                break
+        if verdict is None and live:
+            time.sleep(0.02)
+    for h_ in live.values():
+        _z3cli_kill(h_)
+    if verdict is not None:
+        return verdict
     try:
         r2 = _cvc5_check(smt2, max(3000, timeout_ms // 2))
     except Exception:
@@ -809,9 +782,11 @@ def solve_valid(hyps, goal, timeout_ms):
     return "unknown", "z3+cvc5", None
 
 
-def _z3cli_start(smt2: str, timeout_ms: int):
-    exe = "/usr/bin/z3"
-    if not os.path.exists(exe):
+_Z3_NEW = next((p_ for p_ in ("/usr/local/bin/z3-new", "/opt/veriftools/pyvenv/bin/z3") if os.path.exists(p_)), None)
+
+
+def _z3cli_start(smt2: str, timeout_ms: int, exe="/usr/bin/z3"):
+    if exe is None or not os.path.exists(exe):
         return None
     try:
         f = tempfile.NamedTemporaryFile("w", suffix=".smt2", delete=False)
